@@ -421,5 +421,15 @@ def run(repo: Repo, rep: Report, tier: str) -> None:
 
     struct_rw_fold_rule(repo, rep, "C09.R5", 3 if tier == "thorough" else 2)
     zero_alignment_rule(repo, rep, "C09.R6")
+    from .c16 import dereference_rule
+
+    dereference_rule(repo, rep, "C09.R9")
+    from .c05 import leb128_rule
+    from .c08 import call_shortcut_rule
+
+    call_shortcut_rule(repo, rep, "C09.R7")
+    leb128_rule(repo, rep, "C09.R8")
+
+
 
 
